@@ -554,9 +554,10 @@ func genWindowCase(t *rapid.T) Case {
 func genMessagesCase(t *rapid.T) Case {
 	c := Case{Kind: "messages"}
 	ch := &c.Chain
-	sz := rapid.SampledFrom([][2]uint64{{32, 4}, {512, 4}}).Draw(t, "committeeSize")
+	sz := rapid.SampledFrom([][2]uint64{{32, 4}, {512, 4}, {512, 4}}).Draw(t, "committeeSize")
 	ch.CommitteeSize, ch.SubnetCount = sz[0], sz[1]
-	ch.TargetAggregators = rapid.SampledFrom([]uint64{1, 2, 4, 16}).Draw(t, "targetAggregators")
+	// modulo = size/subnets/target: powers of two (mainnet 8, minimal 1) and others (3, 5, 7, 12, 18, 21, 25, 42)
+	ch.TargetAggregators = rapid.SampledFrom([]uint64{1, 2, 4, 16, 3, 5, 6, 7, 10, 18, 25, 42}).Draw(t, "targetAggregators")
 	ch.SlotsPerEpoch = rapid.SampledFrom([]uint64{4, 8}).Draw(t, "slotsPerEpoch")
 	ch.EpochsPerPeriod = 8
 	epp, spe := ch.EpochsPerPeriod, ch.SlotsPerEpoch
@@ -651,6 +652,7 @@ func check(t ev.TB, c *Case) {
 			"m:expected-contributions": st.expectedContribs > 0, "m:committee-32": ch.CommitteeSize == 32,
 			"m:committee-512": ch.CommitteeSize == 512, "m:runs-across-period-boundary": st.crossesPeriod,
 			"m:start-in-epoch-0": st.startEpoch0, "m:later-fork-after-an-executed-slot": ch.LaterForkEpoch > 0,
+			"m:modulo-not-power-of-two": refModulo(ch)&(refModulo(ch)-1) != 0,
 		} {
 			if on {
 				labels = append(labels, name)
@@ -696,6 +698,14 @@ func check(t ev.TB, c *Case) {
 	for _, v := range vs {
 		ev.Violation(t, v.sig, c, "%s", v.detail)
 	}
+}
+
+func refModulo(ch Chain) uint64 {
+	m := ch.CommitteeSize / ch.SubnetCount / ch.TargetAggregators
+	if m < 1 {
+		m = 1
+	}
+	return m
 }
 
 func appendOnce(l []string, s string) []string {
